@@ -44,6 +44,11 @@ CHECKS['C08'] = ('3/C08', 'calculate_geometry runs with symbolic dimensions (til
                  'are asserted point-wise and the quantified topology statements decided with the cell/pin index as a solver variable '
                  '(finite-domain, exhaustive over the enumerated ring/duct counts).')
 
+CHECKS['C01'] = ('3/C01', 'One explicit step of the real coolant update methods from an arbitrary symbolic state (fields, powers, step, '
+                 'flow, properties, correlated parameters, derived geometry): enthalpy rise = tallied power + tallied wall heat as a single '
+                 'identity (small bundles) and in a decomposed form that scales (affinity per cell + every unit-field column), for '
+                 'interior, bypass and low-fidelity regions; tallies equal their definitions; mixed mean carried across region changes.')
+
 NOT_APPLICABLE = {
     'C16': ('No symbolic dimension for a solver: process schedules/multiprocessing/file output, bitwise IEEE determinism, and '
             'object-identity/type mutation of the input dictionary on `is None`/key-presence branches (DESIGN section 4).'),
